@@ -181,6 +181,7 @@ def _split_by_commas(ctx):
                   'SkipTo', 'Opt', 'NotAny', 'FollowedBy'):
             interp.pure_calls.add('pyparsing.' + n)
         interp.pure_methods.update({'parseString', 'parse_string'})
+        interp.pure_prefixes = ('pyparsing.',)
         interp.method_raises['parseString'] = ['pyparsing.ParseException']
         interp.method_raises['parse_string'] = ['pyparsing.ParseException']
         interp.call_raises['[]'] = ['IndexError']
